@@ -142,6 +142,9 @@ func (g *Gen) trans(e *Expr, env *TEnv) tvT {
 			g.fail("bad literal %s", e.Val)
 		}
 		return tvT{t: g.numBig(v, nil), gt: mathInt, lit: v}
+	case "strlit":
+		// a Go string constant (as in `flag == "transfer"`): the same term the code's constant gets
+		return tvT{t: g.stringConst(e.Val), gt: types.Typ[types.String]}
 	case "smt":
 		return tvT{t: g.substSmt(e.Val, env), sort: e.Sort}
 	case "id":
